@@ -15,8 +15,12 @@ def cellsOf : Val → Option (List Cell)
 
 def natList (xs : List Nat) : Val := .list (xs.map fun (i : Nat) => .cell (.int (Int.ofNat i)))
 
+abbrev St := Unit
+def init : St := ()
+def modelName : String := "cmp"
+
 /-- `(cmp <op> <args>)` -/
-def handle (op : String) (args : List Sexp) : Option String := do
+def handle1 (op : String) (args : List Sexp) : Option String := do
   match op, args with
   | "cmp", [a, b] =>
       let a ← Val.ofSexp a; let b ← Val.ofSexp b
@@ -37,5 +41,8 @@ def handle (op : String) (args : List Sexp) : Option String := do
           pure ("ok " ++ (natList (sortIdx (rs.map (byvalKey os)))).render)
       | _, _ => Option.none
   | _, _ => Option.none
+
+def handle (s : St) (op : String) (args : List Sexp) : Option (St × String) :=
+  (handle1 op args).map fun r => (s, r)
 
 end Pyg.CmpDriver
